@@ -105,6 +105,21 @@ PROPS = {
         "(unless always_continue) and run again at the same ticks as the wet "
         "run (same pause).",
     },
+    "C17": {
+        "flavours": ["asan"],
+        "runs": {"quick": 3000, "thorough": 100000},
+        "rule": KILL_RULE + "; pre-existing oomd_ooms / oomd_kill values in "
+        "[0, 10^9], partial kill failures (ESRCH/EPERM), kernelkill, dry, "
+        "always_continue, silence-logs, the same cgroup killed on successive "
+        "ticks; non-trivial = at least one wet attempt",
+        "level_text": "seeded exploration; oracle = conservation laws over "
+        "the recorded history of every wet attempt: uuid xattrs equal and "
+        "fresh, oomd_ooms +1, oomd_kill + number of SIGKILLs that returned 0 "
+        "(kernelkill: pids.current or 1), oomd.kills +1 and exactly one "
+        "structured kmsg line iff a process was signalled (also with plugin "
+        "logs silenced), return value STOP/CONTINUE/ASYNC_PAUSED as stated, "
+        "next action runs iff CONTINUE.",
+    },
     "C02": {
         "flavours": ["asan"],
         "runs": {"quick": 4000, "thorough": 150000},
